@@ -6,7 +6,7 @@
    generated request by the correspondence run (oracle c13_holds). *)
 From Coq Require Import List Arith Bool Permutation String ZArith.
 From GW Require Import Base.Res Base.GoStr Base.Json Gql.Syntax Gw.ExecLTS Gw.Points Gw.Locate
-     Gw.Plan Proofs.ExecLTSProofs Proofs.ExecLTSConserve Proofs.CodecProofs Proofs.PointsProofs Proofs.FindProofs Proofs.RouteProofs Proofs.PlanProofs Gw.Plan2 Proofs.Plan2Proofs Proofs.SingleService.
+     Gw.Plan Proofs.ExecLTSProofs Proofs.ExecLTSConserve Proofs.CodecProofs Proofs.PointsProofs Proofs.FindProofs Proofs.RouteProofs Proofs.PlanProofs Gw.Plan2 Proofs.Plan2Proofs Proofs.SingleService Proofs.PlanTotal.
 Import ListNotations.
 Open Scope string_scope.
 Open Scope list_scope.
@@ -71,6 +71,17 @@ Example C13_nonvacuous :
   exists l, route_sels 3 [] urls [("Query.user", "User")] [] "Query" "A" []
               [Field "user" "user" [] [] [Field "name" "name" [] [] []]] = Ok l /\ map r_loc l = ["A"; "A"].
 Proof. eexists. split; vm_compute; reflexivity. Qed.
+
+(* No needless hop, for every step the planner queues, at any depth and for every priority list:
+   the selection a dependent step is given is planned at that step's own location when the step is
+   built -- its grouping makes no group for another location, so the step does not bounce what it
+   was sent to fetch (the chooser is idempotent, C20).  Over the planner model Gw/Plan.v. *)
+Theorem C13_a_queued_step_keeps_what_it_was_given : forall prios urls ft fuel ptype ploc ip w sels kept pls q groups,
+  extract prios urls ft fuel ptype ploc ip w sels = Ok (kept, pls) -> chain ptype w = ptype -> In q pls ->
+  group prios urls (pl_ptype q) (pl_loc q) (pl_sels q) [] = Ok groups ->
+  forall l ss, In (l, ss) groups -> l = pl_loc q.
+Proof. exact queued_step_keeps_its_selection. Qed.
+Print Assumptions C13_a_queued_step_keeps_what_it_was_given.
 
 (* A query whose fields are all available from the service answering its root fields is planned
    as ONE step at that service, holding the client's selection unchanged (the gateway's own step
